@@ -1235,7 +1235,11 @@ def mini_exec(fn: ast.FunctionDef, args: Dict[str, object], budget: int = 2000, 
                     import string as _string
                     plain_ = set()
                     auto_ = 0
-                    for _lit, fld_, _spec, _conv in _string.Formatter().parse(recv):
+                    try:
+                        fields_ = list(_string.Formatter().parse(recv))
+                    except ValueError as ex:
+                        raise _Raised(f"ValueError: {ex}")          # what str.format itself raises for this text
+                    for _lit, fld_, _spec, _conv in fields_:
                         if fld_ is None:
                             continue
                         if fld_ == "":
@@ -1907,7 +1911,26 @@ def rule_unload_hook(ctx, rep: Report, rid="H3"):
             nontrivial=False)
 
 
+def _base_handle_by_evaluation(ctx, rep: Report, rid: str) -> bool:
+    """Decides the base-handle obligations by running the routines (rules_ids.base_handle_verdict); False when that is not possible."""
+    from .rules_ids import base_handle_verdict
+    try:
+        v = base_handle_verdict(ctx)
+    except AnalysisError:
+        v = None
+    if v is None:
+        return False
+    ci, prog = mw(ctx)
+    gc = prog.method("MatlabWrapper", "generate_collector_function")
+    rep.add(rid, "base handle:with a base class both kinds of routine hand `new SharedBase(*self)` to MATLAB (out[0] / out[1]), without one neither does", not v,
+            f"the constructor routines of sample classes run by the interpreter: {v[:3]}: a handle is allocated that MATLAB never receives - and never frees - "
+            f"or the .m constructor captures an output that is never produced", f"{ci.mod.rel}:{gc.lineno}")
+    return True
+
+
 def rule_base_handle(ctx, rep: Report, rid="H4"):
+    if _base_handle_by_evaluation(ctx, rep, rid):
+        return
     rts = routine_templates(ctx)
     n = 0
     for name, (t, line, rel) in sorted(rts.items()):
@@ -2837,6 +2860,15 @@ def rule_base_handle_pairing(ctx, rep: Report, rid="H4"):
     of the class: where they differ (e.g. one of them looks through the ignore list and another does not) a handle
     is allocated that MATLAB never receives - and never frees - or a captured output is never produced."""
     ci, prog = mw(ctx)
+    from .rules_ids import base_handle_verdict
+    try:
+        if base_handle_verdict(ctx) is not None:
+            rep.add(rid, "base handle:the .m constructor and both C++ routines decide 'has a parent' by the same test of the class", True,
+                    "decided by running the routines for classes with and without a base (see the base-handle obligation); the .m side is I9's", f"{ci.mod.rel}:0",
+                    nontrivial=False)
+            return
+    except AnalysisError:
+        pass
     from .prog import inline_locals, clone_expr
     wic = prog.method("MatlabWrapper", "wrap_instantiated_class")
     wcc = prog.method("MatlabWrapper", "wrap_class_constructors")
@@ -4068,6 +4100,20 @@ def rule_guard_builders_by_evaluation(ctx, rep: Report, rid="M16"):
             for m_ in re.finditer(r"(isa|size)\(varargin\{(\d+)\}(,[^)]*)\)(==\d+)?", t.replace(" ", "")):
                 conds.setdefault(int(m_.group(2)), set()).add(f"{m_.group(1)}(§{m_.group(3)}){m_.group(4) or ''}")
             per[who] = conds
+        for who, t in texts.items():
+            # the guard is one conjunction: an `||` outside parentheses splits it (&& binds tighter), and the argument count in front
+            # no longer gates what follows the `||`
+            depth_, top_ = 0, []
+            for ch in t:
+                if ch == "(":
+                    depth_ += 1
+                elif ch == ")":
+                    depth_ -= 1
+                elif depth_ == 0:
+                    top_.append(ch)
+            if "||" in "".join(top_) or re.search(r"(?<!\|)\|(?!\|)", "".join(top_)):
+                probs.append(f"{who}: the guard of {[s_[1] for s_ in specs]} has an `||` at its top level: `{t.strip()[:90]}` - the count test and the tests in front "
+                             f"of it no longer apply to the alternative behind it")
         n_ = len(specs)
         cnt = re.search(r"length\(varargin\)==(\d+)", texts["method"].replace(" ", ""))
         if cnt is None or int(cnt.group(1)) != n_:
